@@ -266,7 +266,8 @@ void PCA(matrix *mx, int scaling, size_t npc, PCAMODEL* model, ssignal *s)
       size_t iter = 0;
       double conv;
       while(1){
-        /* Step 2: projection of t' in E (t'*E) */
+        /* Step 2: projection of t' in E (t'*E); the product adds into p */
+        DVectorSet(p, 0.f);
         MT_DVectorMatrixDotProduct(E, t, p);
         /* calc the vectors product t'*t = Sum(t[i]^2) */
         mod_t = DVectorDVectorDotProd(t, t);
